@@ -99,6 +99,14 @@ def refusal(route, text, exc, jit):
     return None
 
 
+def _strict(np, fn, args):
+    """the symbolic derivative is evaluated with underflow raised as well: an intermediate that drops into the denormal
+    range loses digits silently (e.g. d/db (sin(b)**2+1)**(-a) is printed as -2**(a+1)*a*(3-cos(2*b))**(-a-1)*sin(2*b);
+    at a = 1000 the power is 9.66e-319 and the product is off by 1e-6) -> FloatingPointError -> point skipped, like overflow"""
+    with np.errstate(under="raise"):
+        return fn(*args)
+
+
 def _deriv_fpe(route, exc):
     """the symbolic derivative is a different formula than the written one: its intermediates may overflow
     (e.g. cosh(a)**(-2) for 1 - tanh(a)**2 at a = 1000) where the written formula is well-conditioned; the
@@ -179,7 +187,9 @@ ROUTES_I = ["call", "numpy", "numpy-array", "numpy-bcast", "numpy-single", "numb
             "numba-single", "diff", "derivatives"]
 
 
-ROUTES_DEEP = ["call", "numpy-array", "numba", "numba-array", "diff", "derivatives"]
+# measured CPU per deep expression: value routes 0.03 s, differentiate (2 variables) 0.13 s, derivatives 0.13-0.18 s (it
+# simplifies twice); with `derivatives` the thorough tier would need ~22 min on 16 idle cores
+ROUTES_DEEP = ["call", "numpy-array", "numba", "numba-array", "diff"]
 
 
 def _args(np, pt, has_arr):
@@ -360,7 +370,7 @@ def expr_chunk(case):
                 if not ok:
                     continue
                 for p, r in dkept:
-                    ok, got = guarded(route, [p], lambda: d(*_args(np, p, has_arr)))
+                    ok, got = guarded(route, [p], lambda: _strict(np, d, _args(np, p, has_arr)))
                     if not ok or not compare(route, [p], got, r["d"][i], r["de"][i], CLAUSE_D):
                         break
         if "derivatives" in routes and dkept:
@@ -370,7 +380,7 @@ def expr_chunk(case):
                 for p, r in dkept:
                     if has_arr:
                         break  # refused above (indexed variables); nothing to compare if it ever passes
-                    ok, got = guarded("derivatives", [p], lambda: d(*_args(np, p, has_arr)))
+                    ok, got = guarded("derivatives", [p], lambda: _strict(np, d, _args(np, p, has_arr)))
                     if not ok:
                         break
                     if len(got) != nv:
@@ -1032,7 +1042,8 @@ def main(run):
         for ch in _chunks([t for t in texts if t in base], 24):
             cases.append({"shape": shp, "exprs": ch, "seed": seed, "deep": shp not in flat})
         # the expressions only the thorough tier has: the argument-passing variants (single_arg, broadcasting,
-        # the scalar numpy function = `call`) do not depend on the depth of the expression and are left out
+        # the scalar numpy function = `call`) do not depend on the depth of the expression and are left out, and so is
+        # `.derivatives` (same symbolic derivative as `differentiate`, simplified a second time; budget)
         for ch in _chunks([t for t in texts if t not in base], 24):
             deep.append({"shape": shp, "exprs": ch, "seed": seed, "routes": ROUTES_DEEP, "deep": True})
     cases.sort(key=lambda c: -len(c["exprs"]))
@@ -1164,7 +1175,7 @@ def main(run):
         "ALL expressions of the grammar (atoms a b 2 0.5 -1.5 k v arr[0] arr[1] pi; 20 unary, 8 binary operators; commutative twins "
         "removed): depth<=1 over all atoms + depth 2 = one more operator around every depth-1 expression over {a,b}, sibling in {a,b} on "
         "either side (quick); thorough: inner atoms {a,b,0.5}, + depth 2 with two non-atomic children and every depth-3 operator "
-        "triple over {a,b} (reduced route set for these); each through call / numpy / numba source / single_arg / "
+        "triple over {a,b} (these through call / numpy arrays / numba / differentiate only); each through call / numpy / numba source / single_arg / "
         "arrays / broadcasting / differentiate / derivatives at 3 seeded generic + 4 special points; one really compiled function per "
         "shape class (outer x inner operators); plus alias / repl / explicit-symbol variants, tensor expressions, field constructors "
         "on 5 grids, evaluate(), parse_number over all depth<=1 expressions; distinct = expressions (per part) with >= 1 "
